@@ -152,7 +152,7 @@ func (ch *channel) ReadFcall(ctx context.Context, fcall *Fcall) error {
 
 	// clear out the fcall
 	*fcall = Fcall{}
-	if err := ch.codec.Unmarshal(ch.rdbuf[:n], fcall); err != nil {
+	if err := ch.codec.Unmarshal(ch.rdbuf[:n-channelMessageHeaderSize], fcall); err != nil {
 		return err
 	}
 
